@@ -10,7 +10,7 @@ EXTENDS Iso, Json
 
 MCWritePaths == <<"create", "update", "applyCacheUpdate">>
 MCReadPaths == <<"row", "rows", "rowByModel", "rowsByModels", "rowsByCondition",
-                 "get", "list", "whereList", "whereAllList", "whereCacheList", "onAdd", "onUpdateNew", "onUpdateOld", "onDelete">>
+                 "get", "list", "listValues", "whereList", "whereListValues", "whereAllList", "whereCacheList", "onAdd", "onUpdateNew", "onUpdateOld", "onDelete">>
 Families == {"runtime", "handwritten", "generated"}
 FieldMut == {<<"scalar", "overwrite">>, <<"slice", "append">>, <<"slice", "overwriteElem">>, <<"map", "insertKey">>,
              <<"map", "overwriteKey">>, <<"ptr", "writeThrough">>}
